@@ -149,6 +149,11 @@ G = {
     seen by the pre-scan): model both and prove they agree on all layouts of the import section.
 """),
  'C05': dict(cmd='c05', hours=4, goals="""
+ FILE OWNERSHIP inside coq/theories/Imports/: yours are Collect*.v, Index*.v, Extract*.v, Rules.v, Current.v, Run.v,
+ FlattenProps.v, TermProps.v and new files you create; Faults*.v, CurrentFaults.v, RunFaults.v and Fault*/Foreign* files
+ belong to the C06 sub-task, which may be working at the same time — do not edit them, and keep every definition they import
+ from your files (check with `grep -n "Require" coq/theories/Imports/Fault*.v`) backward compatible. translate/importrules.go
+ is yours; translate/guards.go is shared (C01/C06): add a new translator file for new tables.
  1. NAMES. `Index.v` models fileNameToIndex / cleanImportFilename on strings; the listener's construction of the imported
     file's NAME (pkg/parse/listener_impl.go EnterImport_stmt: relative to the importing file's directory, rooted `/x`, remote
     `//host/org/repo/path@version`, relative imports INSIDE a remote file resolved with path.Join against its base, the
@@ -163,6 +168,10 @@ G = {
     depth limit (e.g. all paths to every file have equal length) so the known-finding key can be narrowed further.
 """),
  'C06': dict(cmd='c06', hours=4, goals="""
+ FILE OWNERSHIP inside coq/theories/Imports/: yours are Faults*.v, CurrentFaults.v, RunFaults.v and new files you create
+ (name them Fault*.v / Foreign*.v); Collect*.v, Index*.v, Extract*.v, Rules.v, Current.v, Run.v, FlattenProps.v, TermProps.v
+ belong to the C05 sub-task, which may be working at the same time — import them, do not edit them. translate/importrules.go
+ and translate/guards.go are shared with C05 / C01: add a NEW translator file for new tables instead of editing those.
  1. FOREIGN FORMATS IN THE CLOSURE. notes/C06.md "Not covered": OpenAPI 3 / protobuf / `.pb` / `.pb.json` / `.textpb` imports and
     ambiguous format detection. Extend the fault model and the generator: for EVERY input kind the import statement accepts
     (pkg/parse/parse.go parseSpecs + pkg/importer/formats.go GuessFileType + pkg/pbutil/input.go), a fault of every class
@@ -176,6 +185,18 @@ G = {
  3. CLI level: `sysl pb`, `sysl validate`, `sysl import` exit statuses for the same faults through the real binary.
 """),
  'C07': dict(cmd='c07', hours=4, goals="""
+ 0. (FIRST) TWO LEADS TO FOLLOW UP ON THE UNCHANGED TREE. (a) Reported by a reviewer, not yet confirmed: compiling the SAME
+    source twice can give different models when two views of one application each contain an untyped nested transform:
+    `inferTypes` (pkg/parse, called from postProcess) restarts the `AnonType_0__` counter for every view and iterates the
+    views map, so which view's anonymous type gets which name / survives depends on map order. Reproduce it (same process,
+    many repetitions; fresh processes), decide genuine defect vs false lead, and if genuine either repair it (sorted
+    iteration / per-application counter — only if goldens allow) or list it as a known finding with a narrow key; either way
+    put `inferTypes`' iteration into the post-processing order model and the determinism theorem (sorted: independent;
+    map order: refuted with this witness). (b) Import identities under concurrency: two imports whose paths differ only in
+    letter case (`billing/Types.sysl` vs `billing/types.sysl`), in leading `./`, or in other spellings that a careless
+    normalisation would identify — with BOTH completion orders forced by a gate reader — must each be compiled, and the
+    result must not depend on which read finishes first. Add this stream (the gate reader exists in harness/cmd/c05; copy
+    what you need) with the oracle "same model under every forced completion order".
  1. notes/C07.md "Not covered": `parse.Parser` values shared between goroutines, non-mixin parts of postProcess, import
     fetching under concurrency. Extend ConcShape (Gen) to EVERY package-level variable and every struct field of
     `parse.Parser` / `TreeShapeListener` that is written after construction and reachable from two compilations (classify:
@@ -244,6 +265,16 @@ G = {
     input (no fuel hypothesis).
 """),
  'C11': dict(cmd='c11', hours=4, goals="""
+ 0. (FIRST) TYPE/FORMAT TABLE AND MEDIA TYPES. (a) The OpenAPI type x format -> Sysl type mapping (pkg/importer/openapi.go
+    mapOpenAPITypeAndFormatToType and its callers, the XSD built-in type table): regenerate the table as a Gen fact, model the
+    fallback (an unlisted format falls back to the bare type's mapping) and generate every type with every listed format,
+    NO format, and legal but unlisted formats (integer/number with uint32, uint64, int16, decimal, byte; string with uuid,
+    email, ...) in every position (property, array item, parameter incl. path parameters, top-level definition, response);
+    oracle: the compiled field / parameter is a primitive of the right kind, never a reference to an undefined type named
+    like the OpenAPI type. (b) Operations with two or more request media types (`consumes` with >= 2 entries and a body
+    parameter; OpenAPI 3 requestBody with several content entries), several produces / response contents: every body
+    parameter is present, and importing the same document repeatedly (>= 16 times in one process and in fresh processes)
+    gives byte-identical text (a sort that is computed but not used shows only then).
  1. STRUCTURE COMPLETENESS for the importers in Coq is proved for the flat OpenAPI 2 subset. Extend `import_complete` /
     `import_sound` to: nested inline objects, arrays of arrays, allOf / oneOf / enums, `$ref` chains, path-level +
     operation-level parameters in every location (incl. the shared-Parameters aliasing shape: two operations of one path
